@@ -51,6 +51,8 @@ struct Sess {
     silent: bool,
     stalled: bool,
     done: bool,
+    client_has: Vec<bool>,
+    client_choking: bool,
 }
 
 fn note(who: &str, what: String) {
@@ -274,6 +276,20 @@ impl Sess {
                 self.pending.push((index, begin, len));
                 self.schedule(t, Action::Answer(index, begin, len));
             }
+            Msg::Bitfield(b) => {
+                self.client_has = crate::codec::bitfield_bits(&b, self.sh.torrent.pieces());
+            }
+            Msg::Have(i) => {
+                let n = self.sh.torrent.pieces();
+                if self.client_has.len() < n {
+                    self.client_has.resize(n, false);
+                }
+                if (i as usize) < n {
+                    self.client_has[i as usize] = true;
+                }
+            }
+            Msg::Choke => self.client_choking = true,
+            Msg::Unchoke => self.client_choking = false,
             Msg::Cancel { index, begin, len } => {
                 if let Some(p) = self.pending.iter().position(|r| *r == (index, begin, len)) {
                     self.pending.remove(p);
@@ -322,12 +338,28 @@ impl Sess {
     fn step(&mut self, i: usize) {
         let Step { act, .. } = self.plan.script[i].clone();
         match act {
+            Act::Send(Msg::Handshake { pstr, reserved, info_hash, peer_id }) => {
+                // placeholders: empty = this torrent's hash, [1] = another torrent's hash
+                let mut ih = self.sh.torrent.info_hash.to_vec();
+                if info_hash.len() == 20 {
+                    ih = info_hash;
+                } else if info_hash == vec![1] {
+                    ih[3] ^= 0x10;
+                }
+                self.send(&Msg::Handshake { pstr, reserved, info_hash: ih, peer_id });
+                if !self.sent_hs {
+                    self.sent_hs = true;
+                }
+            }
             Act::Send(m) => self.send(&m),
             Act::Raw(b) => {
                 note(&self.plan.name, format!("tx raw {} bytes", b.len()));
                 self.send_raw(b)
             }
             Act::Choke => {
+                if self.plan.strict_choke && self.choking {
+                    return;
+                }
                 self.choking = true;
                 if !self.plan.answer.serve_after_choke {
                     self.pending.clear();
@@ -335,6 +367,9 @@ impl Sess {
                 self.send(&Msg::Choke);
             }
             Act::Unchoke => {
+                if self.plan.strict_choke && !self.choking {
+                    return;
+                }
                 self.choking = false;
                 self.send(&Msg::Unchoke);
             }
@@ -369,6 +404,24 @@ impl Sess {
             Act::Silence => self.silent = true,
             Act::Resume => self.silent = false,
             Act::Request(i, b, l) => self.send(&Msg::Request { index: i, begin: b, len: l }),
+            Act::RequestOwned(k) => {
+                if self.client_choking {
+                    return;
+                }
+                let owned: Vec<usize> = self.client_has.iter().enumerate().filter(|(_, h)| **h).map(|(i, _)| i).collect();
+                if owned.is_empty() {
+                    return;
+                }
+                for _ in 0..k {
+                    let i = *self.rng.pick(&owned);
+                    let pl = self.sh.torrent.piece_len(i);
+                    let nblocks = (pl + BLOCK - 1) / BLOCK;
+                    let b = self.rng.usize_below(nblocks);
+                    let begin = b * BLOCK;
+                    let len = (pl - begin).min(BLOCK);
+                    self.send(&Msg::Request { index: i as u32, begin: begin as u32, len: len as u32 });
+                }
+            }
         }
     }
 
@@ -467,7 +520,7 @@ pub fn brief(m: &Msg) -> String {
         Msg::Handshake { info_hash, peer_id, pstr, .. } => format!(
             "Handshake(pstr_ok={}, ih={}, id={})",
             pstr.as_slice() == crate::codec::PSTR,
-            crate::codec::hex_upper(&info_hash[..4]),
+            crate::codec::hex_upper(&info_hash[..info_hash.len().min(4)]),
             String::from_utf8_lossy(peer_id)
         ),
         Msg::Unknown { id, payload } => format!("Unknown(id={}, len={})", id, payload.len()),
@@ -502,6 +555,8 @@ fn new_session(plan: Arc<PeerPlan>, sh: Arc<Shared>, has: Arc<Mutex<Vec<bool>>>,
         silent: false,
         stalled: false,
         done: false,
+        client_has: Vec::new(),
+        client_choking: true,
     }
 }
 
